@@ -2,17 +2,42 @@
    (trace acceptance) and prints the model's own summary line. *)
 let params = { mo_spin_tas = SeqCst; mo_spin_clear = SeqCst; mo_sync_cas = SeqCst; mo_sync_store = SeqCst;
                mo_once_cas = SeqCst; mo_once_store = SeqCst; mo_once_load = SeqCst; mo_ref_cas = SeqCst }
-let cell_id = function "lock" | "flag" | "ref" -> 0 | "cs" | "body" -> 1 | "-" -> 0 | _ -> 99
+(* once-flag f is cell 2f ("flag", "flag1", ..), the plain work of its function cell 2f+1 ("body", "body1", ..);
+   a cell the model does not know (e.g. a new static word in the library) gets an id no label carries *)
+let suffix_num pre s =
+  let lp = String.length pre and ls = String.length s in
+  if ls > lp && String.sub s 0 lp = pre then int_of_string_opt (String.sub s lp (ls - lp)) else None
+let cell_id = function
+  | "lock" | "flag" | "ref" -> 0 | "cs" | "body" -> 1 | "-" -> 0
+  | s -> (match suffix_num "flag" s, suffix_num "body" s with
+          | Some k, _ -> 2 * k | _, Some k -> 2 * k + 1 | _ -> 99)
 let choice_of op _a _b c =
   if op = "casw" && c = 2 then 1 else if op = "fwait" && c = 2 then 2 else if op = "fwait" && c = 3 then 3 else 0
 let note_of text =
   match words text with
   | ["enter"] -> (1, 0) | ["enter"; "OVERLAP"] -> (2, 0) | ["exit"] -> (3, 0)
-  | ["func-begin"] -> (4, 0) | ["func-end"] -> (5, 0)
-  | ["ret"; d] -> (6, int_of_string (String.sub d 5 (String.length d - 5)))
+  | ["func-begin"; f] -> (4, int_of_string f) | ["func-end"; f] -> (5, int_of_string f)
+  | ["ret"; f; d] -> (6, 2 * int_of_string f + int_of_string (String.sub d 5 (String.length d - 5)))
   | ["retain"; v] -> (7, int_of_string v) | ["release"; v] -> (8, int_of_string v)
   | _ -> (99, 0)
 let rec upto n = if n <= 0 then [] else upto (n - 1) @ [n - 1]
+let kind_of = function "spin" -> KSpin | "sync" -> KSync | "try" -> KTry | "nest" -> KNest | "nesttry" -> KNestTry | _ -> KMutex
+(* call scripts of the once scenarios: "once n [calls]" = n threads calling flag 0 [calls] times;
+   "oncem nflags s0 s1 .." = thread i calls the flags spelled by the digits of s_i *)
+let once_scripts (w : string list) : (int * (nat -> nat list)) option =
+  let mk arr = let n = Array.length arr in
+    (n, fun t -> let i = int_of_nat t in if i < n then List.map nat_of_int arr.(i) else []) in
+  match w with
+  | "once" :: n :: rest ->
+    let calls = (match rest with c :: _ -> min 60 (max 1 (int_of_string c)) | [] -> 1) in
+    Some (mk (Array.make (int_of_string n) (List.init calls (fun _ -> 0))))
+  | "oncem" :: nf :: scripts when scripts <> [] ->
+    let nf = int_of_string nf in
+    let arr = Array.of_list (List.map (fun sc -> List.init (String.length sc) (fun i -> Char.code sc.[i] - 48)) scripts) in
+    if nf >= 1 && nf <= 4 && Array.for_all (fun l -> l <> [] && List.for_all (fun f -> f >= 0 && f < nf) l) arr
+    then Some (mk arr) else None
+  | _ -> None
+let nflags_of = function "oncem" :: nf :: _ -> int_of_string nf | _ -> 1
 let none_enabled step n st =
   List.for_all (fun t -> step st (nat_of_int t) O = None && step st (nat_of_int t) (S O) = None) (upto n)
 
@@ -51,18 +76,18 @@ let explore_model (p : params) (scen : string list) (seed : int) (runs : int) : 
     incr r;
     (match scen with
      | ["lock"; k; n; it] ->
-       let kind = (match k with "spin" -> KSpin | "sync" -> KSync | "try" -> KTry | _ -> KMutex) in
+       let kind = kind_of k in
        let n = int_of_string n in
        try_run (lstep p true) (linit kind (nat_of_int n) (nat_of_int (int_of_string it))) n
          (fun st -> if int_of_nat (l_overlaps st) > 0 then Some "two holders at once in the model"
                     else if int_of_nat (l_uncovered st) > 0 then Some "a holder reads the protected cell without the previous holder's write being visible (view not covered)"
                     else None)
-     | "once" :: n :: rest ->
-       let n = int_of_string n in
-       let calls = (match rest with c :: _ -> int_of_string c | [] -> 1) in
-       try_run (ostep p) (oinit (nat_of_int n) (nat_of_int calls)) n
-         (fun st -> if int_of_nat (o_runs st) > 1 then Some "function body ran twice in the model"
-                    else if int_of_nat (o_early st) > 0 then Some "a caller returned without the function's write being visible (view not covered)"
+     | ("once" | "oncem") :: _ when once_scripts scen <> None ->
+       let (n, scripts) = (match once_scripts scen with Some x -> x | None -> assert false) in
+       let flags = upto (nflags_of scen) in
+       try_run (ostep p) (oinit (nat_of_int n) scripts) n
+         (fun st -> if List.exists (fun f -> int_of_nat (o_runs st (nat_of_int f)) > 1) flags then Some "function body ran twice in the model"
+                    else if List.exists (fun f -> int_of_nat (o_early st (nat_of_int f)) > 0) flags then Some "a caller returned without the function's write being visible (view not covered)"
                     else None)
      | _ -> r := runs)
   done;
@@ -125,6 +150,37 @@ let atomics_pair variant iters =
    | _ -> Printf.printf "A2 bad-variant %s\n" variant);
   print_endline "F atomics"
 
+(* ---- what the REAL pthread run of muggle_mutex_* must print, read off the extracted lock model ---- *)
+let run_steps step st l = List.fold_left (fun st (t, c) ->
+  match step st (nat_of_int t) (nat_of_int c) with Some (s', _) -> s' | None -> st) st l
+let mutex_real reps trace =
+  let reps = max 1 (min 8 reps) in
+  (* thread 0 holds the mutex (LStart, LAcq done); thread 1 is at its acquire operation *)
+  let held k = run_steps (lstep params true) (linit k (nat_of_int 2) (nat_of_int 1)) [(0, 0); (0, 0); (1, 0)] in
+  let lock_held = (match lstep params true (held KMutex) (nat_of_int 1) O with None -> "blocked" | Some _ -> "returned") in
+  let try_held = (match lstep params true (held KTry) (nat_of_int 1) O with
+                  | Some (_, LEv e) when int_of_z e.e_a = 0 -> "refused" | _ -> "ACQUIRED") in
+  (* thread 0 of the nested client at its nested lock *)
+  let nested = (let st = run_steps (lstep params true) (linit KNest (nat_of_int 2) (nat_of_int 1)) [(0, 0); (0, 0); (0, 0)] in
+                match lstep params true st O O with None -> "blocked" | Some _ -> "returned OK-WHILE-HELD") in
+  (* timing or thread creation trouble on the implementation side ("M inconclusive ..") is a harness matter,
+     never a verdict: such a line is repeated as it is *)
+  let impl = Array.of_list (List.filter (fun l -> String.length l > 2 && String.sub l 0 2 = "M ") trace) in
+  let pos = ref 0 in
+  let emit expected =
+    (if !pos < Array.length impl && (match words impl.(!pos) with "M" :: "inconclusive" :: _ -> true | _ -> false)
+     then print_endline impl.(!pos) else print_endline expected);
+    incr pos in
+  for _ = 1 to reps do
+    emit "M init ok";
+    emit "M lock free ok";
+    emit ("M trylock held " ^ try_held);
+    emit (if lock_held = "blocked" then "M lock held blocked then ok unlock ok" else "M lock held returned OK-WHILE-HELD");
+    emit "M trylock free ok";
+    emit ("M nested lock by the owner " ^ nested)
+  done;
+  print_endline "F mutexreal"
+
 let handle (lines : string list) : unit =
   let rec split acc = function
     | "TRACE" :: rest -> (List.rev acc, rest)
@@ -133,7 +189,7 @@ let handle (lines : string list) : unit =
   let (cfg, trace) = split [] lines in
   let scen = ref [] and prm = ref params and explore = ref None in
   List.iter (fun l -> match words l with
-    | ("lock" | "once" | "refcnt" | "atomics" | "atomics2") :: _ as w -> scen := w
+    | ("lock" | "once" | "oncem" | "refcnt" | "atomics" | "atomics2" | "mutexreal") :: _ as w -> scen := w
     | "params" :: ps -> prm := params_of ps
     | ["explore"; sd; runs] -> explore := Some (int_of_string sd, int_of_string runs)
     | _ -> ()) cfg;
@@ -142,18 +198,23 @@ let handle (lines : string list) : unit =
   | None ->
   match !scen with
   | ["lock"; k; n; it] ->
-    let kind = (match k with "spin" -> KSpin | "sync" -> KSync | "try" -> KTry | _ -> KMutex) in
+    let kind = kind_of k in
     let n = int_of_string n in
     let st0 = linit kind (nat_of_int n) (nat_of_int (int_of_string it)) in
     let step = lstep params true in
     let (st, ok) = accept_trace step st0 cell_id choice_of note_of (none_enabled step n) trace in
     if ok then Printf.printf "F counter=%s overlaps=%d\n" (string_of_z (l_counter st)) (int_of_nat (l_overlaps st))
-  | "once" :: n :: rest ->
-    let n = int_of_string n in
-    let calls = (match rest with c :: _ -> max 1 (int_of_string c) | [] -> 1) in
+  | ("once" | "oncem") :: _ when once_scripts !scen <> None ->
+    let (n, scripts) = (match once_scripts !scen with Some x -> x | None -> assert false) in
     let step = ostep params in
-    let (st, ok) = accept_trace step (oinit (nat_of_int n) (nat_of_int calls)) cell_id choice_of note_of (none_enabled step n) trace in
-    if ok then Printf.printf "F runs=%d done=%s\n" (int_of_nat (o_runs st)) (string_of_z (o_done st))
+    let (st, ok) = accept_trace step (oinit (nat_of_int n) scripts) cell_id choice_of note_of (none_enabled step n) trace in
+    if ok then begin
+      Printf.printf "F runs=%d done=%s\n" (int_of_nat (o_runs st O)) (string_of_z (o_done st O));
+      List.iter (fun f -> if f > 0 then
+        Printf.printf "F flag%d runs=%d done=%s\n" f (int_of_nat (o_runs st (nat_of_int f))) (string_of_z (o_done st (nat_of_int f))))
+        (upto (nflags_of !scen))
+    end
+  | ["mutexreal"; reps] -> mutex_real (int_of_string reps) trace
   | "refcnt" :: v :: scripts ->
     let v = int_of_string v in
     if v <= 0 then print_endline "F refinit -1" else begin
